@@ -1,13 +1,13 @@
 """C28 — the wheel's pure-Python helpers agree with the Rust core."""
 import vlib, gen, gen_py, pywheel
 
-LEVEL = "other"   # serializer/decoder/curry conjuncts proved; int_to_bytes and curried-run decided on the implementation
+LEVEL = "other"   # every conjunct but the curried-run equivalence is proved; that one is decided on the implementation
 FAMILY = "py28"
 
 MANIFEST = {
  "level": 'other',
- "text": 'Partly proved, partly explored. Proved for all inputs about the Gallina transcription of wheel/python/clvm_rs/{ser,casts,curry_and_treehash,program}.py against the classic codec model (C15/C16): sexp_to_bytes = the recursive ser; the stream decoder with the size-field check `bit_count > 6` accepts exactly what node_from_stream accepts, with the same tree and the same remaining input, raising only ValueError; the unrepaired decoder agrees on every input without a 0xfe byte and is REFUTED on fe 00 00 00 00 00 01 61 (finding F4: a 7-byte size field is accepted); int_from_bytes = int_of_bytes; curry_hash(treehash m, map treehash args) = treehash(curry m args) for every 32-byte hash function; uncurry(curry m args) = (m, args). Not proved: int_to_bytes = bytes_of_int for all integers, and "running a curried program = running the module on the prepended environment" (needs the interpreter model) -- both are decided on the implementation (wheel vs Rust harness) on boundary and generated inputs. The model is run against the wheel (python3 + the cdylib built from the current tree) and its literals are pinned to what the translator re-reads from the Python sources.',
- "note": vlib.NOTE_COMMON + " For this property the implementation side of the correspondence is the wheel: wheel/python/clvm_rs plus the native module built by cargo from /repo's working tree, run under python3 by pyharness/driver.py. Level 'other' because two conjuncts are decided by search only (Props/C28.v names them).",
+ "text": 'Partly proved, partly explored. Proved for all inputs about the Gallina transcription of wheel/python/clvm_rs/{ser,casts,curry_and_treehash,program}.py against the classic codec model (C15/C16): sexp_to_bytes = the recursive ser; the stream decoder with the size-field check `bit_count > 6` accepts exactly what node_from_stream accepts, with the same tree and the same remaining input, raising only ValueError; the unrepaired decoder agrees on every input without a 0xfe byte and is REFUTED on fe 00 00 00 00 00 01 61 (finding F4: a 7-byte size field is accepted); int_from_bytes = int_of_bytes and int_to_bytes = bytes_of_int (the canonical encoding) for every integer; curry_hash(treehash m, map treehash args) = treehash(curry m args) for every 32-byte hash function; uncurry(curry m args) = (m, args). Not proved: "running a curried program = running the module on the prepended environment" (needs the interpreter model) -- decided on the implementation (the wheel's run API on both sides and the Rust run_program) on generated programs. The model is run against the wheel (python3 + the cdylib built from the current tree) and its literals are pinned to what the translator re-reads from the Python sources.',
+ "note": vlib.NOTE_COMMON + " For this property the implementation side of the correspondence is the wheel: wheel/python/clvm_rs plus the native module built by cargo from /repo's working tree, run under python3 by pyharness/driver.py. Level 'other' because one conjunct (curried run) is decided by search only (Props/C28.v names it).",
  "technique": 'Coq proof (explicit-stack/fuel refinement onto the classic codec model, finite byte sweeps by vm_compute) + translator pins + model/wheel/Rust three-way differential run',
 }
 
@@ -47,7 +47,7 @@ def run(ctx):
         t0[0] = time.time()
 
     # ---------------- serializer: model vs wheel, wheel vs Rust node_to_bytes
-    n = ctx.scale(400, 6000)
+    n = ctx.scale(400, 4000)
     trees = [gen.gen_tree(r, big=(i % 50 == 0), share=r.choice([0, 0, 0.2])) for i in range(n)]
     trees += [gen.deep_list(r, d, right=(d % 2 == 0)) for d in (100, 1000, 3000)]
     trees += [gen.Rep(b, ln) for ln in (0x3f, 0x40, 0x1fff, 0x2000, 0xfffff, 0x100000) for b in (0x00, 0x80)]
@@ -118,7 +118,7 @@ def run(ctx):
     # ---------------- curry / uncurry / curry hash
     cases = []
     specs = []
-    for i in range(ctx.scale(120, 3000)):
+    for i in range(ctx.scale(120, 1500)):
         # small atoms: the extracted SHA-256 of the model costs ~25 ms per KB
         mod = _small(r, None)
         args = [_small(r, r.choice([1, 1, 2, 5])) for _ in range(r.randrange(0, 5))]
